@@ -8,7 +8,7 @@ SPEC = {
                  'independent percentile / look-back / exclusion oracle; height2code in exact binary64; per-path unsat',
     'bounds': {'quick': 'tables of <= 3 hits (<= 2 sets, 2 ceilometers), any heights and times, percentile in [0,100], '
                         'look-back in (0,100], MAX_HITS_OKTA0 >= 0, exclusion lists [], [a], [a,zz], [a,b]; look-back count in exact binary64 for integer percentages and 1..64 hits; whole metarize() '
-                        'for <= 2 hits; height coding for every binary64 in [0,1e5)',
+                        'for <= 2 hits, also with exclusion list [a] and the statistics / percentile clauses on the finished table; height coding for every binary64 in [0,1e5)',
                'thorough': 'tables of <= 4 hits (no exclusion list at 4 hits); look-back count for 1..200 hits; whole metarize() for <= 3 hits'},
     'outside': 'fluffiness finite and non-negative (LOWESS is a stub whose contract says "finite": not claimed); rounding '
                'inside the percentile interpolation (real-number semantics); the percentile clause is asserted when the '
